@@ -121,7 +121,7 @@ func (e *Engine) VerifyFunction(name string) (res *UnitResult) {
 	}
 	entrySnap := st.clone()
 	rets := u.runBody(fn, args, fvs, st, pc, true, con, false)
-	// postconditions, checked once on the merge of all return points
+	// postconditions: one named obligation per clause, discharged as one query per return point
 	sig := fn.Signature
 	if len(rets) > 0 {
 		var edges []edge
@@ -129,31 +129,27 @@ func (e *Engine) VerifyFunction(name string) (res *UnitResult) {
 			edges = append(edges, edge{nil, r.guard, r.st})
 		}
 		rg, rst := u.mergeStates(edges)
-		vals := make([]*SV, sig.Results().Len())
-		for i := range vals {
-			var acc *SV
-			for j := len(rets) - 1; j >= 0; j-- {
-				if acc == nil {
-					acc = rets[j].vals[i]
-				} else {
-					acc = u.iteSV(rets[j].guard, rets[j].vals[i], acc)
-				}
-			}
-			vals[i] = acc
-		}
-		u.retState, u.retVals = rst.clone(), vals
-		post := u.unitEnv(con, fn, args, fvs, rst, rg)
-		oe := *env
-		oe.st = entrySnap
-		post.old = &oe
-		u.bindResults(post, sig, vals)
+		u.retState = rst.clone()
+		parents := make([]*Obligation, len(con.Ensures))
 		for i, en := range con.Ensures {
-			p := u.evalClause(post, en)
 			label := en.Label
 			if label == "" {
 				label = fmt.Sprintf("%d", i)
 			}
-			u.oblige("post", label, en.Tags, rg, p, "postcondition: "+en.Src, fn.Pos())
+			parents[i] = u.oblige("post", label, en.Tags, rg, c.True(), "postcondition: "+en.Src, fn.Pos())
+		}
+		for ri, r := range rets {
+			post := u.unitEnv(con, fn, args, fvs, r.st, r.guard)
+			oe := *env
+			oe.st = entrySnap
+			post.old = &oe
+			u.bindResults(post, sig, r.vals)
+			for i, en := range con.Ensures {
+				p := u.evalClause(post, en)
+				part := &Obligation{Name: fmt.Sprintf("%s@ret%d", parents[i].Name, ri), Kind: "post", Tags: en.Tags, Guard: r.guard, Prop: p,
+					NAssume: len(u.assumptions), Src: parents[i].Src, Unit: u, Pos: parents[i].Pos, RetState: r.st.clone(), RetVals: r.vals}
+				parents[i].Parts = append(parents[i].Parts, part)
+			}
 		}
 		cov := u.oblige("cover", "return", nil, rg, c.True(), "some return is reachable", fn.Pos())
 		cov.Cover = true
@@ -249,12 +245,16 @@ func (o *Obligation) VC() []*Term {
 			}
 		}
 		as = append(as, o.Guard)
+		as = append(as, u.frameInstances(as, o.NAssume)...)
 		return as
 	}
-	as = append(as, u.assumptions[:o.NAssume]...)
+	goal := []*Term{o.Guard, u.c.Not(o.Prop)}
+	hyps := append([]*Term{}, u.assumptions[:o.NAssume]...)
+	hyps = append(hyps, u.aliasFacts(o.NAssume)...)
+	as = append(as, filterRelevant(goal, hyps)...)
 	as = append(as, u.strOrderAxioms()...)
-	as = append(as, o.Guard)
-	as = append(as, u.c.Not(o.Prop))
+	as = append(as, goal...)
+	as = append(as, u.frameInstances(as, o.NAssume)...)
 	return as
 }
 
@@ -339,4 +339,23 @@ func hasQuant(t *Term) bool {
 		return false
 	}
 	return rec(t)
+}
+
+// RelaxedVC is the quantifier-free relaxation (quantified assumptions dropped, frame axioms instantiated on the
+// addresses that are read). A model of it is only a *candidate* explanation of an unproved obligation.
+func (o *Obligation) RelaxedVC() []*Term {
+	u := o.Unit
+	var as []*Term
+	for _, a := range u.assumptions[:o.NAssume] {
+		if !hasQuant(a) {
+			as = append(as, a)
+		}
+	}
+	as = append(as, u.aliasFacts(o.NAssume)...)
+	as = append(as, o.Guard)
+	if !hasQuant(o.Prop) {
+		as = append(as, u.c.Not(o.Prop))
+	}
+	as = append(as, u.frameInstances(as, o.NAssume)...)
+	return as
 }
